@@ -2,7 +2,8 @@
 
 Decided: the partition structure of the weighted quantile, the structure of the mixture
 density, lock-step bookkeeping and the support filter of the constrained sampler, weight
-normalisation.  Not decided: variance / ESS formulas as arithmetic, monotonicity in alpha.
+normalisation, the weighted-variance and ESS formulas (normal forms over sample sums,
+sa/sumalg.py).  Not decided: monotonicity in alpha, rescale invariance for all inputs.
 """
 
 import ast
@@ -305,3 +306,124 @@ def c13_c(ctx):
                            for r in rr)
     ctx.check(okr, rv, 'the filled buffer is returned', 'return output',
               'rvs does not return the buffer it filled', fn=rv, node=rr[0] if rr else lo)
+
+
+def _subst_phi(t, choice):
+    """Replace every phi term by its alternative number choice[phi] (uniformly)."""
+    if not isinstance(t, tuple) or not t:
+        return t
+    if isinstance(t[0], str) and t[0] == 'phi' and t in choice:
+        return _subst_phi(t[1][choice[t]], choice)
+    return tuple(_subst_phi(c, choice) if isinstance(c, tuple) else c for c in t)
+
+
+def _phis(t, acc):
+    if not isinstance(t, tuple) or not t:
+        return acc
+    if isinstance(t[0], str) and t[0] == 'phi':
+        if t not in acc:
+            acc.append(t)
+        return acc
+    for c in t:
+        if isinstance(c, tuple):
+            _phis(c, acc)
+    return acc
+
+
+@obligation('C13-d', 'T14', 'weighted variance = reliability-weights unbiased formula; effective '
+            'sample size = (sum w)^2 / sum w^2', floor=3,
+            necessary='a statistic whose normal form over the sample sums differs is a different '
+                      'function of the sample')
+def c13_d(ctx):
+    from .. import sumalg as sa_
+    from ..ratfun import Rat, Unsupported, DividesByZero
+    sa_.selfcheck()
+    ctx.fact('vectors are normalised to polynomials in the sample vectors, np.sum / dot / average '
+             'to sums of monomials S[m]; equality of the resulting rational functions in the S[m] '
+             'is decided by coefficient comparison')
+    um = ctx.repo.module('elfi.methods.utils')
+    S = sa_.S
+
+    def inline(t):
+        f = t[1]
+        if f[0] != 'global' or not f[1].startswith('elfi.'):
+            return None
+        mod, _, name = f[1].rpartition('.')
+        m = ctx.repo.modules.get(mod)
+        if m is None or name not in m.functions:
+            return None
+        callee = m.functions[name]
+        rr = returns(callee)
+        if len(rr) != 1:
+            return None
+        body = ctx.ex(callee).term(rr[0].value)
+        binding = {}
+        for i, a in enumerate(t[2]):
+            if i < len(callee.params):
+                binding[('param', callee.params[i])] = a
+        for (k, v) in t[3]:
+            binding[('param', k)] = v
+        ctx.touch(callee)
+        return body, binding
+
+    def decide(fn, vec_names, expected, label, want_txt):
+        ex = ctx.ex(fn)
+        rr = returns(fn)
+        if len(rr) != 1:
+            ctx.undecided('{}: expected one return'.format(fn.name))
+        t = ex.term(rr[0].value)
+        phis = _phis(t, [])
+        if len(phis) > 1:
+            ctx.undecided('{}: more than one merged definition'.format(fn.name))
+        alts = range(len(phis[0][1])) if phis else [0]
+        for i in alts:
+            tt = _subst_phi(t, {phis[0]: i}) if phis else t
+            default = bool(phis) and vec_names.get('weights') is not None and \
+                ('param', vec_names['weights']) not in set(subterms(tt))
+
+            def vec_leaf(x):
+                for role, pname in vec_names.items():
+                    if x == ('param', pname):
+                        return role[0]
+                return None
+            try:
+                got = sa_.Conv(vec_leaf, inline).conv(tt)
+            except DividesByZero:
+                ctx.check(False, fn, label + (' (default weights)' if default else ''), want_txt,
+                          '{} divides by a quantity that is identically zero{}'.format(
+                              fn.name, ' for unit weights' if default else ''), fn=fn,
+                          node=rr[0])
+                continue
+            except Unsupported as e:
+                ctx.undecided('{} outside the sum fragment: {}'.format(fn.name, e))
+            if isinstance(got, sa_.Vec):
+                ctx.undecided('{} returns a vector expression'.format(fn.name))
+            want = expected(default)
+            ctx.check(got.same(want), fn, label + (' (default weights)' if default else ''),
+                      want_txt, '{} computes {} which is not {}'.format(fn.name, got, want_txt),
+                      fn=fn, node=rr[0])
+
+    # weighted variance
+    wv = [f for f in um.functions.values() if f.params[:2] == ['x', 'weights'] and
+          any(contains(ctx.ex(f).term(r.value), 'np.average(*_)') for r in returns(f))]
+    if len(wv) != 1:
+        raise AnchorMissing('weighted variance function')
+
+    def want_var(default):
+        if default:
+            n = Rat.sym('n')
+            return (S(x=2) - S(x=1) * S(x=1) / n) / (n - n / n)
+        num = S(w=1, x=2) - S(w=1, x=1) * S(w=1, x=1) / S(w=1)
+        return num / (S(w=1) - S(w=2) / S(w=1))
+    decide(wv[0], {'x': 'x', 'weights': 'weights'}, want_var, 'reliability-weights variance',
+           'sum w (x - xbar)^2 / (V1 - V2/V1), xbar = sum w x / sum w')
+    # effective sample size
+    es = [f for f in um.functions.values() if f.params == ['weights'] and
+          any(isinstance(n, ast.Call) and callee_name(n) in ('square',) for n in
+              own_nodes(f.node)) and f.name != wv[0].name and
+          any(ctx.ex(f).term(r.value)[0] == 'binop' and ctx.ex(f).term(r.value)[1] == '/'
+              for r in returns(f))]
+    if len(es) != 1:
+        raise AnchorMissing('effective sample size function')
+    decide(es[0], {'weights': 'weights'}, lambda d: S(w=1) * S(w=1) / S(w=2),
+           'effective sample size', '(sum w)^2 / sum w^2')
